@@ -1286,3 +1286,265 @@ Lemma header_count_is_source f ind :
   header_count f ind = Gen.IcarttSrc.header_count_expr (Z.of_nat (length (myattrs f))) (Z.of_nat (length (depvars ind f)))
   /\ Gen.IcarttSrc.format_number = 1001.
 Proof. split; reflexivity. Qed.
+
+(* ------------------------------------------------------------------ expected_vars = spec_roundtrip *)
+Lemma code_val_code_of v : code_val v = code_of (code_str v).
+Proof. reflexivity. Qed.
+
+(* per-variable cell condition: masked cells print as the code the reader uses, unmasked ones do not *)
+Definition cells_fine (code : dec) (v : var) : bool :=
+  forallb (fun cl => match cl with
+                     | Some d => negb (dec_eqb (fmt6e d) code)
+                     | None => dec_eqb (fmt6e (code_val v)) code
+                     end) (v_cells v).
+
+Lemma cells_map code v : cells_fine code v = true ->
+  map (cell_apply (D 1 0) code) (map CV (map fmt6e (filled v))) = map spec_cell (v_cells v).
+Proof.
+  intros H. unfold filled. rewrite !map_map. apply map_ext_in. intros cl Hin.
+  unfold cells_fine in H. rewrite forallb_forall in H. specialize (H cl Hin). destruct cl as [d|]; cbn [cell_apply spec_cell].
+  - apply negb_true_iff in H. rewrite H, dec_mul_one. reflexivity.
+  - rewrite H. reflexivity.
+Qed.
+
+(* index bookkeeping: exp_vars walks the name list with a running column index *)
+Fixpoint build_from (vs : list var) (k : nat) (rows : list (list cell)) : list rvar :=
+  match vs with
+  | [] => []
+  | v :: t => RVar (v_name v) (units_str v) (code_str v) (code_of (code_str v))
+                   (map (cell_apply (D 1 0) (code_of (code_str v))) (column k rows))
+              :: build_from t (S k) rows
+  end.
+
+Lemma nth_app_len {A} (p : list A) x q d : nth (length p) (p ++ x :: q) d = x.
+Proof. rewrite app_nth2, Nat.sub_diag by lia. reflexivity. Qed.
+
+Lemma exp_vars_suffix rows : forall (vs : list var) (ps : list dec) (pm : list (str * dec)) (pu : list str) k,
+  length ps = k -> length pm = k -> length pu = k ->
+  exp_vars (map v_name vs) k (ps ++ map (fun _ => D 1 0) vs)
+           (pm ++ map (fun t => (t, code_of t)) (map code_str vs)) (pu ++ map units_str vs) rows
+  = build_from vs k rows.
+Proof.
+  induction vs as [|v t IH]; intros ps pm pu k H1 H2 H3; [reflexivity|].
+  cbn [map].
+  assert (E1 : nth k (ps ++ D 1 0 :: map (fun _ : var => D 1 0) t) (D 1 0) = D 1 0) by (rewrite <- H1; apply nth_app_len).
+  assert (E2 : nth k (pm ++ (code_str v, code_of (code_str v)) :: map (fun t0 => (t0, code_of t0)) (map code_str t)) ([], D 0 0)
+               = (code_str v, code_of (code_str v))) by (rewrite <- H2; apply nth_app_len).
+  assert (E3 : nth k (pu ++ units_str v :: map units_str t) [] = units_str v) by (rewrite <- H3; apply nth_app_len).
+  cbn [exp_vars build_from]. rewrite E1, E2, E3. cbn [fst snd]. f_equal.
+  specialize (IH (ps ++ [D 1 0]) (pm ++ [(code_str v, code_of (code_str v))]) (pu ++ [units_str v]) (S k)).
+  rewrite <- !app_assoc in IH. cbn [app] in IH. apply IH; rewrite app_length; cbn [length]; lia.
+Qed.
+
+(* the columns of the written table, variable by variable *)
+Lemma build_from_cols n : forall (vs : list var) (pc : list (list dec)) k,
+  length pc = k -> Forall (fun c => length c = n) (pc ++ map filled vs) ->
+  build_from vs k (map (map CV) (map (map fmt6e) (transpose_rows n (pc ++ map filled vs))))
+  = map (fun v => RVar (v_name v) (units_str v) (code_str v) (code_of (code_str v))
+                       (map (cell_apply (D 1 0) (code_of (code_str v))) (map CV (map fmt6e (filled v))))) vs.
+Proof.
+  induction vs as [|v t IH]; intros pc k Hk HF; [reflexivity|].
+  cbn [map] in HF. cbn [map build_from]. f_equal.
+  - f_equal. rewrite !column_map. rewrite (column_transpose n (pc ++ filled v :: map filled t) k HF).
+    + subst k. rewrite nth_app_len. reflexivity.
+    + subst k. rewrite app_length. cbn [length]. lia.
+  - specialize (IH (pc ++ [filled v]) (S k)). rewrite <- app_assoc in IH. cbn [app] in IH. apply IH.
+    + rewrite app_length. cbn [length]. lia.
+    + exact HF.
+Qed.
+
+Lemma all_some_somes {A} (l : list A) : all_some (map (@Some A) l) = Some l.
+Proof. induction l as [|x t IH]; [reflexivity|]. cbn [map all_some]. rewrite IH. reflexivity. Qed.
+
+(* boolean side conditions under which what is read back is what the property demands *)
+Definition spec_ok (f : file) (ind : str) (iv : var) : bool :=
+  match depvars ind f with
+  | [] => false
+  | d0 :: _ =>
+      match v_units iv with Some u => str_eqb (line9_unit (indep_line f ind)) u | None => false end
+      && str_eqb (code_str iv) (code_str d0)
+      && forallb (fun v => match v_units v with Some _ => true | None => false end) (depvars ind f)
+      && cells_fine (code_of (code_str d0)) iv
+      && forallb (fun v => cells_fine (code_val v) v) (depvars ind f)
+  end.
+
+Lemma spec_var_dep v : clean_code (code_str v) = true -> (exists u, v_units v = Some u) -> cells_fine (code_val v) v = true ->
+  spec_var v = Some (RVar (v_name v) (units_str v) (code_str v) (code_of (code_str v))
+                          (map (cell_apply (D 1 0) (code_of (code_str v))) (map CV (map fmt6e (filled v))))).
+Proof.
+  intros Hc [u Hu] Hcells. destruct (clean_code_facts _ Hc) as ((c & P) & _).
+  unfold spec_var, units_str. rewrite Hu, P. unfold code_of. rewrite P.
+  rewrite code_val_code_of in Hcells. unfold code_of in Hcells. rewrite P in Hcells.
+  rewrite (cells_map _ _ Hcells). reflexivity.
+Qed.
+
+(* (i) WHOLE FILES: what the reader returns for the writer's output IS what the property demands *)
+Lemma expected_is_spec f ind iv :
+  indep_name f = Some ind -> find_var ind f = Some iv ->
+  header_ok f ind = true -> data_ok f ind iv = true -> spec_ok f ind iv = true ->
+  spec_roundtrip f = Some (expected_vars f ind iv).
+Proof.
+  intros Hi Hf Hok Hd Hsp.
+  assert (Hname : v_name iv = ind).
+  { unfold find_var in Hf. apply find_some in Hf as [_ E]. apply str_eqb_eq in E. exact E. }
+  unfold spec_roundtrip. rewrite Hi, Hf.
+  unfold header_ok in Hok.
+  apply andb_true_iff in Hok as [Hok _]. apply andb_true_iff in Hok as [Hok _].
+  apply andb_true_iff in Hok as [Hok _]. apply andb_true_iff in Hok as [Hok _].
+  apply andb_true_iff in Hok as [_ Hcodes].
+  unfold data_ok in Hd. apply andb_true_iff in Hd as [Hd _]. apply andb_true_iff in Hd as [Hd _].
+  apply andb_true_iff in Hd as [_ Hlen].
+  unfold spec_ok in Hsp. unfold expected_vars.
+  set (deps := depvars ind f) in *.
+  destruct deps as [|d0 dt] eqn:Edeps; [discriminate|]. rewrite <- Edeps in *.
+  apply andb_true_iff in Hsp as [Hsp Hcd]. apply andb_true_iff in Hsp as [Hsp Hci].
+  apply andb_true_iff in Hsp as [Hsp Hun]. apply andb_true_iff in Hsp as [Hu0 Hcode0].
+  destruct (v_units iv) as [u0|] eqn:Eu0; [|discriminate]. apply str_eqb_eq in Hu0. apply str_eqb_eq in Hcode0.
+  (* the dependent variables *)
+  assert (Hdeps : map spec_var deps = map (@Some rvar)
+            (map (fun v => RVar (v_name v) (units_str v) (code_str v) (code_of (code_str v))
+                       (map (cell_apply (D 1 0) (code_of (code_str v))) (map CV (map fmt6e (filled v))))) deps)).
+  { rewrite map_map. apply map_ext_in. intros v Hin.
+    rewrite forallb_forall in Hcodes, Hun, Hcd. apply spec_var_dep.
+    - apply Hcodes, in_map, Hin.
+    - specialize (Hun v Hin). destruct (v_units v) as [u|]; [exists u; reflexivity|discriminate].
+    - apply Hcd, Hin. }
+  (* the independent variable *)
+  assert (Hc0 : clean_code (code_str iv) = true).
+  { rewrite Hcode0. rewrite forallb_forall in Hcodes. apply Hcodes. rewrite Edeps. left. reflexivity. }
+  destruct (clean_code_facts _ Hc0) as ((c0 & P0) & _).
+  assert (Hiv : spec_var iv = Some (RVar ind u0 (code_str d0) (code_of (code_str d0))
+                   (map (cell_apply (D 1 0) (code_of (code_str d0))) (map CV (map fmt6e (filled iv)))))).
+  { unfold spec_var. rewrite Eu0, P0, Hname. rewrite (cells_map _ _ Hci). rewrite <- Hcode0. unfold code_of. rewrite P0. reflexivity. }
+  cbn [map all_some]. rewrite Hiv, Hdeps, all_some_somes. cbn [option_map]. f_equal.
+  (* now the index bookkeeping on the reader side *)
+  set (M := map (fun t => (t, code_of t)) (map code_str deps)).
+  assert (EM : firstn 1 M ++ M = [(code_str d0, code_of (code_str d0))] ++ M) by (unfold M; rewrite Edeps; reflexivity).
+  rewrite EM. cbn [map exp_vars nth fst snd app]. rewrite Hu0. f_equal.
+  - f_equal. unfold wrows. fold deps. rewrite !column_map.
+    rewrite (column_transpose _ (filled iv :: map filled deps) 0).
+    + reflexivity.
+    + constructor; [unfold filled; apply map_length|]. apply Forall_forall. intros c Hin.
+      apply in_map_iff in Hin as (v & <- & Hin). unfold filled. rewrite map_length.
+      rewrite forallb_forall in Hlen. apply Nat.eqb_eq, Hlen, Hin.
+    + cbn [length]. lia.
+  - change (D 1 0 :: map (fun _ : var => D 1 0) deps) with ([D 1 0] ++ map (fun _ : var => D 1 0) deps).
+    change (u0 :: map units_str deps) with ([u0] ++ map units_str deps).
+    unfold M. rewrite (exp_vars_suffix _ deps [D 1 0] [(code_str d0, code_of (code_str d0))] [u0] 1 eq_refl eq_refl eq_refl).
+    unfold wrows. fold deps.
+    change (filled iv :: map filled deps) with ([filled iv] ++ map filled deps).
+    symmetry. apply build_from_cols; [reflexivity|].
+    cbn [app]. constructor; [unfold filled; apply map_length|]. apply Forall_forall. intros c Hin.
+    apply in_map_iff in Hin as (v & <- & Hin). unfold filled. rewrite map_length.
+    rewrite forallb_forall in Hlen. apply Nat.eqb_eq, Hlen, Hin.
+Qed.
+
+(* WHOLE round trip against the specification *)
+Lemma roundtrip_whole_spec f n ls ind sd iv :
+  impl_write f = Some (n, ls) ->
+  indep_name f = Some ind -> get_attr (s2z "SDATE") (f_attrs f) = Some sd -> find_var ind f = Some iv ->
+  forallb no_nl (hdr_other f ind sd) = true ->
+  header_ok f ind = true -> data_ok f ind iv = true -> spec_ok f ind iv = true ->
+  exists A sp, impl_roundtrip f = Some (RFile n A sp) /\ spec_roundtrip f = Some sp.
+Proof.
+  intros W Hi Hs Hf Hn Hok Hd Hsp.
+  destruct (roundtrip_whole _ _ _ _ _ _ W Hi Hs Hf Hn Hok Hd) as (A & R).
+  exists A, (expected_vars f ind iv). split; [exact R|]. apply expected_is_spec; assumption.
+Qed.
+
+(* ------------------------------------------------------------------ second cycle on whole files *)
+Definition back_cell (x : cell) : option dec := match x with CV d => Some d | _ => None end.
+
+Lemma spec_cell_back cells : map spec_cell (map back_cell (map spec_cell cells)) = map spec_cell cells.
+Proof.
+  rewrite !map_map. apply map_ext. intros [d|]; cbn [spec_cell back_cell]; [rewrite fmt6e_idem|]; reflexivity.
+Qed.
+
+(* a variable as the specification describes it *)
+Definition spec_shaped (s : rvar) : Prop :=
+  parse_num (r_code_s s) = Some (r_code s) /\ exists cells, r_cells s = map spec_cell cells.
+
+Lemma spec_var_shaped v s : spec_var v = Some s -> spec_shaped s /\ r_name s = v_name v.
+Proof.
+  unfold spec_var. destruct (v_units v) as [u|]; [|discriminate].
+  destruct (parse_num (code_str v)) as [c|] eqn:P; [|discriminate]. intros E. injection E as <-.
+  split; [split; [exact P|eexists; reflexivity]|reflexivity].
+Qed.
+
+Lemma spec_var_to_var s : spec_shaped s -> spec_var (to_var s) = Some s.
+Proof.
+  destruct s as [nm u cs c cells]. intros [P [cl Hc]]. cbn [r_code_s r_code r_cells] in *.
+  unfold spec_var, to_var, code_str. cbn [v_units v_code v_name v_cells r_name r_units r_code_s r_code r_cells].
+  rewrite P. subst cells. fold back_cell. rewrite spec_cell_back. reflexivity.
+Qed.
+
+Lemma all_some_inv {A B} (g : A -> option B) : forall l sp,
+  all_some (map g l) = Some sp -> Forall2 (fun x s => g x = Some s) l sp.
+Proof.
+  induction l as [|x t IH]; intros sp H; cbn [map all_some] in H.
+  - injection H as <-. constructor.
+  - destruct (g x) as [y|] eqn:E; [|discriminate]. destruct (all_some (map g t)) as [r|] eqn:Er; [|discriminate].
+    injection H as <-. constructor; [exact E|apply IH; reflexivity].
+Qed.
+
+(* the specification applied to the file that was read back is that file: reading is a fixed point *)
+Lemma spec_to_file f ind iv sp A :
+  indep_name f = Some ind -> find_var ind f = Some iv ->
+  uniq (ind :: map v_name (depvars ind f)) = true ->
+  spec_roundtrip f = Some sp ->
+  indep_name (to_file (RFile 0 A sp)) = Some ind ->
+  spec_roundtrip (to_file (RFile 0 A sp)) = Some sp.
+Proof.
+  intros Hi Hf Hu Hsp Hi2.
+  assert (Hname : v_name iv = ind).
+  { unfold find_var in Hf. apply find_some in Hf as [_ E]. apply str_eqb_eq in E. exact E. }
+  unfold spec_roundtrip in Hsp. rewrite Hi, Hf in Hsp. apply all_some_inv in Hsp.
+  destruct sp as [|s0 srest]; [inversion Hsp|].
+  assert (Hs0 : spec_var iv = Some s0) by (inversion Hsp; assumption).
+  assert (Hrest : Forall2 (fun x s => spec_var x = Some s) (depvars ind f) srest) by (inversion Hsp; assumption).
+  destruct (spec_var_shaped _ _ Hs0) as [Sh0 N0]. rewrite Hname in N0.
+  unfold spec_roundtrip. rewrite Hi2. unfold to_file, find_var, depvars. cbn [f_vars r_vars map find filter].
+  assert (E0 : str_eqb (v_name (to_var s0)) ind = true) by (apply str_eqb_eq; destruct s0; cbn in *; exact N0).
+  rewrite E0. cbn [negb].
+  (* the other variables keep their place: their names differ from ind *)
+  cbn [uniq] in Hu. apply andb_true_iff in Hu as [Hnot _]. apply negb_true_iff in Hnot.
+  assert (Hfil : filter (fun v => negb (str_eqb (v_name v) ind)) (map to_var srest) = map to_var srest
+                 /\ map spec_var (map to_var srest) = map (@Some rvar) srest).
+  { clear Hs0 Sh0 N0 E0 Hsp Hi2. unfold in_strs in Hnot. remember (depvars ind f) as ds eqn:Eds. clear Eds.
+    revert Hnot. induction Hrest as [|v s ds' sr Hv Hr IHr]; intros Hnot; [split; reflexivity|].
+    destruct (spec_var_shaped _ _ Hv) as [Sh Nm].
+    cbn [map existsb] in Hnot. apply orb_false_iff in Hnot as [Hn1 Hn2]. destruct (IHr Hn2) as [I1 I2].
+    cbn [map filter]. assert (En : str_eqb (v_name (to_var s)) ind = false).
+    { destruct s; cbn in *. rewrite Nm. rewrite str_eqb_sym. exact Hn1. }
+    rewrite En. cbn [negb]. rewrite I1, I2, (spec_var_to_var _ Sh). split; reflexivity. }
+  destruct Hfil as [F1 F2]. rewrite F1. cbn [map all_some]. rewrite (spec_var_to_var _ Sh0), F2, all_some_somes. reflexivity.
+Qed.
+
+(* (ii) WHOLE FILES, second cycle: if the file that was read back again satisfies the boolean side conditions,
+   writing and reading it once more returns the same variables (names, order, units, codes, masks, values) *)
+Lemma second_cycle_whole f n ls ind sd iv r1 n2 ls2 sd2 iv2 :
+  impl_write f = Some (n, ls) ->
+  indep_name f = Some ind -> get_attr (s2z "SDATE") (f_attrs f) = Some sd -> find_var ind f = Some iv ->
+  forallb no_nl (hdr_other f ind sd) = true ->
+  header_ok f ind = true -> data_ok f ind iv = true -> spec_ok f ind iv = true ->
+  impl_roundtrip f = Some r1 ->
+  let f2 := to_file r1 in
+  impl_write f2 = Some (n2, ls2) ->
+  indep_name f2 = Some ind -> get_attr (s2z "SDATE") (f_attrs f2) = Some sd2 -> find_var ind f2 = Some iv2 ->
+  forallb no_nl (hdr_other f2 ind sd2) = true ->
+  header_ok f2 ind = true -> data_ok f2 ind iv2 = true -> spec_ok f2 ind iv2 = true ->
+  exists r2, impl_second f = Some r2 /\ r_vars r2 = r_vars r1 /\ spec_roundtrip f = Some (r_vars r1).
+Proof.
+  intros W Hi Hs Hf Hn Hok Hd Hsp R1 f2 W2 Hi2 Hs2 Hf2 Hn2 Hok2 Hd2 Hsp2.
+  destruct (roundtrip_whole_spec _ _ _ _ _ _ W Hi Hs Hf Hn Hok Hd Hsp) as (A & sp & R & S).
+  rewrite R in R1. injection R1 as <-.
+  destruct (roundtrip_whole_spec _ _ _ _ _ _ W2 Hi2 Hs2 Hf2 Hn2 Hok2 Hd2 Hsp2) as (A2 & sp2 & R2 & S2).
+  assert (Hu : uniq (ind :: map v_name (depvars ind f)) = true).
+  { unfold data_ok in Hd. apply andb_true_iff in Hd as [Hd _]. apply andb_true_iff in Hd as [_ Hu]. exact Hu. }
+  assert (S2' : spec_roundtrip f2 = Some sp).
+  { unfold f2, to_file. cbn [r_attrs r_vars].
+    apply (spec_to_file f ind iv sp A Hi Hf Hu S). exact Hi2. }
+  rewrite S2 in S2'. injection S2' as ->.
+  exists (RFile n2 A2 sp). split; [|split; [reflexivity|exact S]].
+  unfold impl_second. rewrite R. exact R2.
+Qed.
